@@ -25,16 +25,35 @@ pub const REMOTE_PORT: &str = "transfer";
 pub const CONNECTION: &str = "connection-0";
 pub const ICS20_VERSION: &str = "ics20-1";
 
-/// local channel ids: channel-1, channel-2, …
+/// Channel ids. Indices 0,1 form the plain scheme (local channel-1/channel-2, counterparty ends
+/// channel-71/channel-72: no id is used twice). Indices 2,3 form the CROSSED scheme: the counterparty
+/// end of local channel-5 is called channel-15 and the counterparty end of local channel-15 is called
+/// channel-5 — local and remote ids share one namespace on real chains, so a remote id regularly
+/// names another local channel. A configuration uses one scheme (`Cfg.first_chan`).
 pub fn local_chan(i: u8) -> String {
-    format!("channel-{}", i + 1)
+    match i {
+        0 => "channel-1".into(),
+        1 => "channel-2".into(),
+        2 => "channel-5".into(),
+        3 => "channel-15".into(),
+        _ => format!("channel-9{i}"),
+    }
 }
-/// counterparty channel ids: channel-71, channel-72, … (all distinct from the local ones)
 pub fn remote_chan(i: u8) -> String {
-    format!("channel-7{}", i + 1)
+    match i {
+        0 => "channel-71".into(),
+        1 => "channel-72".into(),
+        2 => "channel-15".into(),
+        3 => "channel-5".into(),
+        _ => format!("channel-8{i}"),
+    }
+}
+/// the other channel of the same scheme
+pub fn partner(i: u8) -> u8 {
+    i ^ 1
 }
 pub fn chan_index(id: &str) -> Option<u8> {
-    (0..8u8).find(|i| local_chan(*i) == id)
+    (0..4u8).find(|i| local_chan(*i) == id)
 }
 
 pub fn local_ep(i: u8) -> IbcEndpoint {
